@@ -44,11 +44,11 @@ SPEC = {
 def run(ctx: Ctx):
     f = ctx.func("move_mol_atom")
     g = ctx.func("find_atom_random_displ")
-    r7_1(ctx, f)
-    r7_2_3(ctx, f)
-    r7_5(ctx, f)
-    r7_4(ctx, g, f)
-    r7_6(ctx, f, g)
+    ctx.attempt("R7.1", lambda: r7_1(ctx, f))
+    ctx.attempt("R7.2", lambda: r7_2_3(ctx, f))
+    ctx.attempt("R7.5", lambda: r7_5(ctx, f))
+    ctx.attempt("R7.4", lambda: r7_4(ctx, g, f))
+    ctx.attempt("R7.6", lambda: r7_6(ctx, f, g))
 
 
 def _pos_param(f: Func) -> str:
@@ -494,6 +494,11 @@ def _r7_5_queue(ctx: Ctx, f: Func, rule: str, q: str):
                     if isinstance(s_, ast.Assign) and len(s_.targets) == 1 and isinstance(s_.targets[0], ast.Name) \
                             and isinstance(s_.value, ast.Subscript) and norm(s_.value.value) == tv:
                         al_[s_.targets[0].id] = norm(s_.value)
+                if isinstance(lp[0].target, ast.Tuple) and len(lp[0].target.elts) == 2:
+                    # the table entry unpacked in the loop header: for (bonded atom, length) in bonds_info[parent]
+                    e0_, e1_ = [norm(x_) for x_ in lp[0].target.elts]
+                    al_.setdefault(e0_, "%s[0]" % tv)
+                    al_.setdefault(e1_, "%s[1]" % tv)
                 okq = isinstance(it, ast.Subscript) and norm(it.slice) == norm(p_) \
                     and al_.get(norm(c_), norm(c_)) == "%s[0]" % tv and al_.get(norm(l_), norm(l_)) == "%s[1]" % tv and norm(it.value) == f.params[1]
             ctx.ob(rule, f, cc, okq,
@@ -559,6 +564,9 @@ def _specialise(e: ast.AST, sd: Dict[str, ast.AST], cnt: Optional[str], n: int, 
                             return r
             return node
     out = T().visit(_c.deepcopy(e))
+    if not failed:
+        from ..pat import simplify_indexed
+        out = simplify_indexed(out)
     return None if failed else out
 
 
@@ -626,6 +634,14 @@ def r7_4(ctx: Ctx, g: Func, f: Func, rule="R7.4"):
                 ctx.ob(rule, g, s, True, "operands of the cross product for %d neighbour(s) not in the modelled fragment; not decided" % k,
                        undecided=True, node=s)
                 continue
+            # operands still written with locals that this rule could not resolve (bound in several places, unpacked from a
+            # slice ...): what they stand for is not known here
+            loc_ = {x.id for s_ in walk_no_nested(g.node) for x in ast.walk(s_) if isinstance(x, ast.Name) and isinstance(x.ctx, ast.Store)}
+            unres = sorted({x.id for a in args for x in ast.walk(a) if isinstance(x, ast.Name) and x.id in loc_ and x.id not in g.params})
+            if unres:
+                ctx.ob(rule, g, s, True, "operands of the cross product for %d neighbour(s) are written with locals this rule does not "
+                       "resolve (%s); not decided on this tree" % (k, ", ".join(unres)), undecided=True, node=s)
+                continue
             keys = [diff_key(a) for a in args]
             have = [x for x in keys if x is not None]
             need = want.get(k, [])
@@ -679,7 +695,17 @@ def r7_4(ctx: Ctx, g: Func, f: Func, rule="R7.4"):
             ctx.ob(rule, g, s, False, "the direction is only rescaled after the cross product -- `%s` changes its direction" % norm(s), node=s)
     # the caller passes its own working copy, index and bond table
     calls = [c for c in calls_in(f.node) if call_name(c) == g.name]
-    okc = bool(calls) and [norm(a) for a in calls[0].args[:3]] == [f.params[0], f.params[1], f.params[2]]
+    from ..pat import single_defs as _sd74
+    sdf_ = _sd74(f.node)
+
+    def _is_work(a_):
+        # the positions handed over: the parameter itself (rebound to its copy) or a local bound once to a copy of it
+        if norm(a_) == f.params[0]:
+            return True
+        v_ = sdf_.get(a_.id) if isinstance(a_, ast.Name) else None
+        return isinstance(v_, ast.Call) and call_name(v_) in ("copy", "array") and (
+            (v_.args and norm(v_.args[0]) == f.params[0]) or (isinstance(v_.func, ast.Attribute) and norm(v_.func.value) == f.params[0]))
+    okc = bool(calls) and len(calls[0].args) >= 3 and _is_work(calls[0].args[0]) and [norm(a) for a in calls[0].args[1:3]] == [f.params[1], f.params[2]]
     ctx.ob(rule, f, calls[0] if calls else "displacement draw", okc,
            "the displacement is drawn for the atom that is moved, from the current positions and the bond table",
            node=calls[0] if calls else f.node)
